@@ -222,7 +222,7 @@ static int run_c07(uint64_t seed, long rows) {
     static const int npreds[] = {-100, -100, PREDICTION_DIFFERENCE, MESH_PREDICTION_GEOMETRIC_NORMAL};
     ro.pred = npreds[r.range(0, 3)];
     const int np = 64;
-    const int lencls = r.range(0, 6);
+    const int lencls = r.range(0, 7);   // 7: components close to FLT_MAX (|x|+|y|+|z| exceeds the float range)
     std::vector<std::vector<float>> vals(np, std::vector<float>(3));
     for (int i = 0; i < np; ++i) {
       double d[3];
@@ -236,7 +236,7 @@ static int run_c07(uint64_t seed, long rows) {
         case 4: d[0] = tiny(); d[1] = r.unit() - 0.5; d[2] = r.unit() - 0.5; break;                          // diamond boundary |y|+|z| = 1 neighbourhood
         default: d[0] = r.unit() * 2 - 1; d[1] = r.unit() * 2 - 1; d[2] = r.unit() * 2 - 1;
       }
-      static const double lens[] = {1.0, 1e-4, 1e5, 1e-30, 1e30, 1e-6, 3.0};
+      static const double lens[] = {1.0, 1e-4, 1e5, 1e-30, 1e30, 1e-6, 3.0, 2.4e38};
       double len = lens[lencls];
       double n2 = std::sqrt(d[0] * d[0] + d[1] * d[1] + d[2] * d[2]);
       if (n2 == 0) { d[0] = 1; n2 = 1; }
